@@ -5,6 +5,8 @@ namespace Yaclib.Wait
 
 attribute [grind =] upd_same
 attribute [grind =] upd_other
+attribute [grind =] regBound rstBound
+attribute [grind =] WPc.inCall WPc.holds WPc.postReg WPc.early WPc.preTimeout WPc.timedOnly WPc.resetting
 
 theorem regBound_congr {s s' : State} (h1 : s'.wpc = s.wpc) (h2 : s'.hi = s.hi) : regBound s' = regBound s := by
   simp [regBound, h1, h2]
@@ -78,6 +80,106 @@ theorem InvG.out_word (hi : InvG b w s) (hal : s.alive = true) {i : Nat} (hlo : 
   | result => simp
   | ev => have := hi.g_ev hal i hw; rw [hg] at this; cases this
   | cont => have := hi.fi_lo hal; exact absurd hw (hi.todo i (by omega)).2.1
+
+/-- how the four counts change when future `i < m` moves from ghost phase `a` to `b` -/
+theorem cnt4 {f : Nat → Fut} {i : Nat} {x : Fut} {m : Nat} (hlt : i < m) (a b : G) (ha : (f i).g = a) (hb : x.g = b) :
+    (cntG (upd f i x) .inn m + (if a = .inn then 1 else 0) = cntG f .inn m + (if b = .inn then 1 else 0)) ∧
+    (cntG (upd f i x) .taken m + (if a = .taken then 1 else 0) = cntG f .taken m + (if b = .taken then 1 else 0)) ∧
+    (cntG (upd f i x) .decd m + (if a = .decd then 1 else 0) = cntG f .decd m + (if b = .decd then 1 else 0)) ∧
+    (cntG (upd f i x) .back m + (if a = .back then 1 else 0) = cntG f .back m + (if b = .back then 1 else 0)) := by
+  subst ha hb
+  exact ⟨cntG_upd_lt hlt, cntG_upd_lt hlt, cntG_upd_lt hlt, cntG_upd_lt hlt⟩
+
+/-- a count of zero means no future at all is in that phase (futures beyond `hi` are `out`) -/
+theorem InvG.none_of_zero (hi : InvG b w s) (hal : s.alive = true) {a : G} (ha : a ≠ .out) (h0 : cntG s.fut a s.hi = 0) :
+    ∀ j, (s.fut j).g ≠ a := by
+  intro j hg
+  by_cases hj : j < s.hi
+  · exact cntG_zero h0 hj hg
+  · have := hi.lt_hi hal (i := j) (by rw [hg]; exact ha); omega
+
+/-- nobody holds the event pointer and nobody is inside `Set` when no future is `inn`, `taken` and there is no setter -/
+theorem InvG.clean_of (hi : InvG b w s) (hal : s.alive = true) (h1 : Ninn s = 0) (h2 : Ntaken s = 0) (h3 : s.setter = none) :
+    ∀ j, (s.fut j).g ≠ .inn ∧ (s.fut j).g ≠ .taken ∧ (s.fut j).ppc ≠ .setting ∧ (s.fut j).ppc ≠ .locked := by
+  intro j
+  refine ⟨hi.none_of_zero hal (by simp) h1 j, hi.none_of_zero hal (by simp) h2 j, ?_, ?_⟩
+  · intro h; have := hi.set_pp hal j (Or.inl h); rw [h3] at this; cases this
+  · intro h; have := hi.set_pp hal j (Or.inr h); rw [h3] at this; cases this
+
+/-- the same when the flag is set and the waiter holds the mutex: the setter has left `Set` -/
+theorem InvG.clean_of_ready (hi : InvG b w s) (hal : s.alive = true) (h1 : Ninn s = 0) (h2 : Ntaken s = 0)
+    (hr : s.ready = true) (hh : ∀ i, s.holder ≠ some (.p i)) :
+    ∀ j, (s.fut j).g ≠ .inn ∧ (s.fut j).g ≠ .taken ∧ (s.fut j).ppc ≠ .setting ∧ (s.fut j).ppc ≠ .locked := by
+  intro j
+  have hs := hi.rdy_set hal hr
+  refine ⟨hi.none_of_zero hal (by simp) h1 j, hi.none_of_zero hal (by simp) h2 j, ?_, ?_⟩
+  · intro h
+    have h1 := hi.set_pp hal j (Or.inl h)
+    rcases hs.2 j h1 with h2 | h2 <;> rw [h] at h2 <;> cases h2
+  · intro h
+    exact hh j ((hi.holder_p j).mpr h)
+
+/-- every future of the range is fulfilled when none is `inn` or `back` -/
+theorem InvG.all_ready (hi : InvG b w s) (hal : s.alive = true) (hb : regBound s = s.hi) (h1 : Ninn s = 0) (h2 : Nback s = 0) :
+    ∀ j, s.lo ≤ j → j < s.hi → (s.fut j).word = .result := by
+  intro j hlo hhi
+  cases hg : (s.fut j).g with
+  | out => exact hi.g_out hal j hlo (by omega) hg
+  | inn => exact absurd hg (hi.none_of_zero hal (by simp) h1 j)
+  | back => exact absurd hg (hi.none_of_zero hal (by simp) h2 j)
+  | taken =>
+      have := hi.g_taken hal j hg
+      have hs := hi.start_iff j
+      cases hw : (s.fut j).word with
+      | result => rfl
+      | _ => have := hs.mpr (by simp [hw]); simp_all
+  | decd =>
+      have := hi.g_decd hal j hg
+      have hs := hi.start_iff j
+      cases hw : (s.fut j).word with
+      | result => rfl
+      | _ => have := hs.mpr (by simp [hw]); simp_all
+
+/-- once the flag is set every registered future has been decremented or reset -/
+theorem InvG.ready_counts (hi : InvG b w s) (hal : s.alive = true) (hr : s.ready = true) :
+    Ninn s = 0 ∧ Ntaken s = 0 ∧ (s.sub2done = false → Nback s = 0) := by
+  have hs := hi.rdy_set hal hr
+  cases hset : s.setter with
+  | none => exact absurd hset hs.1
+  | some j =>
+      have hgj := hi.set_g hal j hset
+      have hj := hi.lt_hi hal (i := j) (by simp [hgj])
+      have hpos := cntG_pos hj hgj
+      have hwc := hi.c_wc hal
+      have hrc := hi.c_rc hal
+      have hle := hi.wc_le hal
+      simp only [Ninn, Ntaken, Ndecd, Nback] at *
+      by_cases hone : s.hi - s.lo = 1
+      · refine ⟨by omega, by omega, fun _ => by omega⟩
+      · have hc := hi.set_cnt hal hone (by simp [hset])
+        have hcnt := hi.c_cnt hal hone
+        simp only [hc.1, hc.2, ↓reduceIte, Ndecd] at hcnt
+        cases h2 : s.sub2done with
+        | true => simp only [h2, ↓reduceIte] at hcnt; refine ⟨by omega, by omega, fun h => by cases h⟩
+        | false => simp only [h2, Bool.false_eq_true, ↓reduceIte] at hcnt; refine ⟨by omega, by omega, fun _ => by omega⟩
+
+/-! relations between the phase predicates -/
+theorem WPc.resetting_holds {c : WPc} (h : c.resetting = true) : c.holds = true := by cases c <;> simp_all [WPc.resetting, WPc.holds]
+theorem WPc.resetting_timedOnly {c : WPc} (h : c.resetting = true) : c.timedOnly = true := by cases c <;> simp_all [WPc.resetting, WPc.timedOnly]
+theorem WPc.holds_postReg {c : WPc} (h : c.holds = true) : c.postReg = true := by cases c <;> simp_all [WPc.holds, WPc.postReg]
+theorem WPc.postReg_inCall {c : WPc} (h : c.postReg = true) : c.inCall = true := by cases c <;> simp_all [WPc.inCall, WPc.postReg]
+theorem WPc.early_inCall {c : WPc} (h : c.early = true) : c.inCall = true := by cases c <;> simp_all [WPc.inCall, WPc.early]
+theorem WPc.early_preTimeout {c : WPc} (h : c.early = true) : c.preTimeout = true := by cases c <;> simp_all [WPc.preTimeout, WPc.early]
+theorem WPc.early_not_holds {c : WPc} (h : c.early = true) : c.holds = false := by cases c <;> simp_all [WPc.holds, WPc.early]
+theorem WPc.preTimeout_inCall {c : WPc} (h : c.preTimeout = true) : c.inCall = true := by
+  cases c <;> simp_all [WPc.inCall, WPc.preTimeout]
+theorem WPc.preTimeout_not_resetting {c : WPc} (h : c.preTimeout = true) : c.resetting = false := by
+  cases c <;> simp_all [WPc.resetting, WPc.preTimeout]
+theorem WPc.timedOnly_postReg {c : WPc} (h : c.timedOnly = true) : c.postReg = true := by
+  cases c <;> simp_all [WPc.timedOnly, WPc.postReg]
+
+attribute [grind →] WPc.resetting_holds WPc.resetting_timedOnly WPc.holds_postReg WPc.postReg_inCall WPc.early_inCall
+  WPc.early_preTimeout WPc.early_not_holds WPc.preTimeout_inCall WPc.preTimeout_not_resetting WPc.timedOnly_postReg
 
 /-- the tactic that closes one field of the invariant after the effect has been unfolded -/
 macro "inv_close" : tactic => `(tactic| first | assumption | grind)
